@@ -408,6 +408,20 @@ def rule_D3_escape(ctx, typer, clsname, quoted=True):
     n = 0
     cls = p.cls(clsname)
     if quoted:
+        # what the line generators receive in the nodenamefunc position must be the user's callable itself: a wrapper
+        # (e.g. a caching closure that already quotes and escapes) moves the escaping somewhere this rule does not follow
+        it_ = p.func(clsname, "__iter")
+        for c in walk_own(it_.node):
+            if isinstance(c, ast.Call) and isinstance(c.func, ast.Attribute) and c.func.attr in ("__iter_nodes", "__iter_edges"):
+                callee = p.func(clsname, c.func.attr)
+                from .common import call_binding
+                got = call_binding(c, callee).get("nodenamefunc")
+                if got is not None and not (isinstance(got, ast.Name) and got.id == "nodenamefunc"
+                                            and not any(isinstance(d_, ast.FunctionDef) and d_.name == "nodenamefunc" for d_ in ast.walk(it_.node))):
+                    ctx.extra.setdefault("undecided", []).append(
+                        "D3: %s.%s receives `%s` in the place of nodenamefunc; where its result is escaped is not followed" % (clsname, c.func.attr, norm(got)))
+        if ctx.extra.get("undecided"):
+            return n
         for fname in ("__iter_nodes", "__iter_edges"):
             f = p.func(clsname, fname)
             tainted = set()
@@ -680,6 +694,8 @@ def rule_D5_structure(ctx, typer, clsname, closing=None, writer="to_dotfile"):
                 and isinstance(it.module.assigns.get(st.value.func.value.id), ast.Call) \
                 and norm(it.module.assigns[st.value.func.value.id].func) in ("logging.getLogger", "getLogger"):
             continue  # diagnostics through the module logger: produces no line
+        elif isinstance(st, ast.FunctionDef) and not any(isinstance(x_, (ast.Yield, ast.YieldFrom)) for x_ in ast.walk(st)):
+            continue  # a local helper is defined: produces no line
         else:
             order.append(("other", st))
     want = ["yield", "__iter_options", "__iter_nodes", "__iter_edges"] + (["yield"] if closing else [])
